@@ -7,6 +7,7 @@ import J1939.Lemmas.Tactics
 import J1939.Lemmas.ConstCa
 import J1939.Lemmas.Bits
 import J1939.Lemmas.Seg21
+import J1939.Lemmas.Bam21
 namespace J1939.Props.C14
 open J1939 J1939.Gen J1939.Ca J1939.Bits
 
@@ -94,5 +95,45 @@ theorem c14_dll_passes_request (cfg : Dll21.Cfg) (s : Dll21.St) (now : Nat) (acc
   by_cases hd : (PGN.from_message_id (MessageId.ofCanId canId)).pdu_specific = 255
   · simp [hd, hne]
   · cases ha : acc (PGN.from_message_id (MessageId.ofCanId canId)).pdu_specific <;> simp [hd, ha, hne]
+
+theorem mask_req : ∀ da, da < 256 → (59904 + da) &&& 130816 = 59904 := by decide +kernel
+
+/-- REQUEST FROM END TO END (J1939-21): an operational CA at `a` calls send_request(0, pgn, dest) for any 24-bit PGN; the
+    ONE frame it puts on the bus, received by any other stack, is handed to that stack's CAs iff dest is global or
+    accepted there — with the requester's address `a`, the destination and the three bytes — and every CA that is
+    operational and owns `dest` (or dest is global) runs its request callbacks once with EXACTLY (a, dest, pgn) (or, for
+    the address-claim PGN, answers with its address-claimed frame); every other CA does nothing -/
+theorem c14_request_end_to_end (c : Ca.Ca) (a pgn dest : Nat) (h : c.state = NORMAL) (ha : c.addr = some a) (hd : dest < 256) (ha' : a < 256)
+    (hp : pgn < 16777216) (cfgO cfgR : Dll21.Cfg) (sO sR : Dll21.St) (t0 t1 : Nat) (acc : Nat → Bool) (r : Ca.Ca) :
+    ∃ f, (Dll21.sendPgn cfgO sO t0 0 234 dest 6 a (Gen.Ca.request_data pgn)).1.outs = [.tx f] ∧
+      Dll21.notify cfgR sR t1 acc f.id f.data =
+        { st := sR, outs := if dest = 255 ∨ acc dest = true then [.request a dest (Gen.Ca.request_data pgn)] else [] } ∧
+      let addressed := r.state = NORMAL ∧ (r.addr = some dest ∨ dest = 255)
+      (addressed ∧ pgn ≠ Const.PGN.ADDRESSCLAIM → processRequest r a dest f.data = some (.callbacks a dest pgn)) ∧
+      (addressed ∧ pgn = Const.PGN.ADDRESSCLAIM → ∀ ra, r.addr = some ra → processRequest r a dest f.data = some (.claim (claimFrame r ra))) ∧
+      (¬ addressed → processRequest r a dest f.data = some .nothing) := by
+  obtain ⟨_, hframe⟩ := c14_request_frame c a pgn dest h ha hd ha' cfgO sO t0
+  refine ⟨_, hframe, ?_, ?_⟩
+  · -- the receiving data link layer
+    have hid : 6 * 67108864 + (234 * 256 + dest) * 256 + a =
+        MessageId.can_id (MessageId.ofFields 6 (PGN.value (PGN.ofFields 0 234 dest)) a) := by
+      rw [Dll21.pdu1_id]; omega
+    obtain ⟨p1, _, p3⟩ := Dll21.tp_id_parse 6 234 dest a (by omega) (by omega) hd ha'
+    have hpdu1 : PGN.is_pdu2_format (PGN.from_message_id (MessageId.ofCanId (6 * 67108864 + (234 * 256 + dest) * 256 + a))) = false := by
+      rw [hid, p3]; simp [PGN.is_pdu2_format]
+    have hreq : Tp21.notify_pgn_value (PGN.from_message_id (MessageId.ofCanId (6 * 67108864 + (234 * 256 + dest) * 256 + a))) = Const.PGN.REQUEST := by
+      rw [hid, p3]
+      have hv : PGN.value { data_page := 0, pdu_format := 234, pdu_specific := dest } = 59904 + dest := by
+        rw [Lemmas.pgn_value_arith _ (by simp only [Lemmas.PGN.WF]; omega)]; simp only
+      rw [Tp21.notify_pgn_value, hv]; exact mask_req dest hd
+    have := c14_dll_passes_request cfgR sR t1 acc _ (Gen.Ca.request_data pgn) hpdu1 hreq
+    simp only at this
+    rw [this, hid, p3, p1]
+  · -- the CA behind it: the three bytes decode to the requested PGN
+    have hl : 3 ≤ (Gen.Ca.request_data pgn).length := by simp [Gen.Ca.request_data]
+    have hdec := (c14_request_codec pgn hp).2
+    have := c14_dispatch r a dest (Gen.Ca.request_data pgn) hl
+    simp only [hdec] at this
+    exact this
 
 end J1939.Props.C14
